@@ -325,6 +325,14 @@ def concrete_positions(it) -> Optional[list]:
 def index(v: Val, idx: list, interp=None) -> Val:
     """idx: list of index items: ('full',) | ('slice', lo, hi, step) with Expr|None bounds | ('int', k) |
     ('expr', Expr) scalar symbolic | ('new',) | ('mask', Arr) | ('fancy', Val) | ('ellipsis',)"""
+    if isinstance(v, Arr) and len(idx) == 1 and idx[0][0] == "fancy" and v.axes[0][0].concrete is not None:
+        # A[positions] with known integer positions on an axis of known length: the entries at those positions, in order
+        ps = concrete_positions(idx[0])
+        if ps is not None and all(-v.axes[0][0].concrete <= p < v.axes[0][0].concrete for p in ps):
+            rows_ = [index(v, [("int", p)], interp) for p in ps]
+            if all(isinstance(r, Sc) and r.e is not None for r in rows_):
+                tv = fresh()
+                return Arr([(fix(len(ps)), tv)], sym.Sel(tv, tuple(r.e for r in rows_)) if rows_ else sym.Opq("empty", ()), "nd")
     if isinstance(v, Arr) and len(idx) == v.ndim >= 2 and all(it[0] == "fancy" for it in idx):
         # A[rows, cols] with index arrays of known integers: entry t is A[rows[t], cols[t]]
         poss = [concrete_positions(it) for it in idx]
